@@ -217,13 +217,24 @@ func opParse(args []string) string {
 // dec <fmt> <bufsize|0=bytes decoder> <lastEOF 0|1> <maxNext> <chunks>
 //   -> per Next: <events>=<ok|eof|err> joined by ";"   (stops after the first non-ok)
 
+// decf <fmt> <bufsize> <lastEOF> <maxNext> <failAt> <chunks>: dec with a visitor failing from its k-th event on
+func opDecF(args []string) string {
+	k, _ := strconv.Atoi(args[4])
+	return decRun(args[0], args[1], args[2], args[3], k, args[5])
+}
+
 func opDec(args []string) string {
-	f := Formats[args[0]]
-	bufsize, _ := strconv.Atoi(args[1])
-	lastEOF := args[2] == "1"
-	maxNext, _ := strconv.Atoi(args[3])
-	chunks := Chunks(args[4])
+	return decRun(args[0], args[1], args[2], args[3], -1, args[4])
+}
+
+func decRun(fmtName, bs, le, mn string, failAt int, cs string) string {
+	f := Formats[fmtName]
+	bufsize, _ := strconv.Atoi(bs)
+	lastEOF := le == "1"
+	maxNext, _ := strconv.Atoi(mn)
+	chunks := Chunks(cs)
 	rec := NewRecorder()
+	rec.FailAt = failAt
 	var d decoderI
 	if bufsize == 0 {
 		d = f.NewBytesDecoder(bytes.Join(chunks, nil), rec)
@@ -354,7 +365,23 @@ func opRT(args []string) string {
 	}
 	rec := NewRecorder()
 	err := f.Parse(w.Buf.Bytes(), rec)
-	return out + "|" + res + "|" + rec.String() + "|" + ErrClass(err)
+	obs := out + "|" + res + "|" + rec.String() + "|" + ErrClass(err)
+	// the same bytes through the reader entry point in 1-byte reads and through the pull decoder
+	// with a 3-byte buffer: the round trip must not depend on how the bytes arrive (only
+	// reported when it does, so that the observation stays the whole-buffer one)
+	if n := w.Buf.Len(); n > 0 && n <= 4096 {
+		var one [][]byte
+		b := w.Buf.Bytes()
+		for j := range b {
+			one = append(one, b[j:j+1])
+		}
+		rec2 := NewRecorder()
+		_, err2 := f.ParseReader(&ChunkReader{Chunks: one}, rec2)
+		if rec2.String() != rec.String() || ErrClass(err2) != ErrClass(err) {
+			obs += "|CHUNKED:" + ErrClass(err2)
+		}
+	}
+	return obs
 }
 
 // chunk <fmt> <entry W|R> <chunks>     whole-buffer Parse versus a chunked entry point
@@ -439,6 +466,7 @@ func init() {
 	RegisterOp("enc", opEnc)
 	RegisterOp("parse", opParse)
 	RegisterOp("dec", opDec)
+	RegisterOp("decf", opDecF)
 	RegisterOp("xcode", opXcode)
 	RegisterOp("reuse-enc", opReuseEnc)
 	RegisterOp("reuse-parse", opReuseParse)
